@@ -27,14 +27,32 @@ namespace SwimVerif.Handlers
 inductive Top | start | stop | cmd | susp
   deriving DecidableEq, Repr
 
+/-- The closures given to `transform_entry` by the harness (defunctionalised): every combination of
+"entry present / absent" and "closure returns Some / None" is reachable. -/
+inductive Xf
+  | inc (d : Int)      -- `|v| Some(v.copied().unwrap_or(0) + d)` : insert or replace
+  | del                -- `|_| None`                              : remove or no change
+  | bump (d : Int)     -- `|v| v.map(|x| x + d)`                  : replace or no change
+  | flip (n : Int)     -- `|v| if v.is_some() { None } else { Some(n) }` : remove or insert
+  deriving DecidableEq, Repr
+
+def Xf.app : Xf → Option Int → Option Int
+  | .inc d, v => some (v.getD 0 + d)
+  | .del, _ => none
+  | .bump d, v => v.map (· + d)
+  | .flip _, some _ => none
+  | .flip n, none => some n
+
 inductive Ev
   | eff (i : Nat)
   | got (l : Nat) (v : Int)
   | gotE (m k : Nat) (v : Option Int)
+  | gotW (m k : Nat) (v : Option Int)   -- read through `with_entry`
   | wset (l : Nat) (n : Int)            -- intent records written just before a modifying primitive
   | wupd (m k : Nat) (n : Int)
   | wrem (m k : Nat)
   | wclr (m : Nat)
+  | wxf (m k : Nat) (f : Xf)            -- intent record of a `transform_entry`
   | wfail | wstop | wsusp
   | enEvent (l : Nat) (new : Int) | exEvent (l : Nat)
   | enSet (l : Nat) (prev : Option Int) (new : Int) | exSet (l : Nat)
@@ -76,6 +94,9 @@ def Mod.mapRemove (id : Nat) : Mod :=
   { item := id, dirty := Generated.mapRemoveDirty, trigger := Generated.mapRemoveTrigger }
 def Mod.mapClear (id : Nat) : Mod :=
   { item := id, dirty := Generated.mapClearDirty, trigger := Generated.mapClearTrigger }
+/-- `MapLaneTransformEntry::step` when the result is not `NoChange`. -/
+def Mod.mapTransform (id : Nat) : Mod :=
+  { item := id, dirty := Generated.mapTransformDirty, trigger := Generated.mapTransformTrigger }
 
 /-- `StepResult` (completion values are consumed by the defunctionalised closures). -/
 inductive Out
@@ -95,6 +116,11 @@ inductive H
   | mrem (m k : Nat)                 -- `MapLaneRemove`
   | mclr (m : Nat)                   -- `MapLaneClear`
   | mgetLog (m k : Nat)              -- `AndThen::First { MapLaneGet, |v| effect(record v) }`
+  | mxf (m k : Nat) (f : Xf)         -- `MapLaneTransformEntry { key_and_f: Some((k, f)) }`
+  | mwithLog (m k : Nat)             -- `AndThen::First { MapLaneWithEntry(k, |v| v.copied()), |v| effect(record v) }`
+  | remMulti (m : Nat) (keys : List Nat)
+      -- `MapLaneDropOrTake { state: Removing(MapLaneRemoveMultiple { keys: Some(keys), current: None }) }`; the `Init`
+      -- state computes `keys` from the map and performs this handler's first step in the same `step` (`dropTakeH`)
   | fby (a b : H)                    -- `FollowedBy::First { first, next }`
   | athen (a b : H)                  -- `AndThen::First { first, |()| b }`
   | snd (b : H)                      -- `FollowedBy::Second(b)` / `AndThen::Second(b)`
@@ -190,6 +216,30 @@ def St.clrM (st : St) (m : Nat) : St :=
   | some x => { st with maps := st.maps.set m { content := [], previous := some (.clear x.content) } }
   | none => st
 
+/-- `MapStoreInner::transform_entry`, its four arms: entry present and the closure returns a value (replace,
+`previous = Update(k, Some(old))`), present and `None` (remove, `previous = Remove(k, old)`), absent and a value
+(insert, `previous = Update(k, None)`), absent and `None` (`NoChange`: nothing touched). `content.remove` followed by
+`content.insert` of the same key is the `insert` of `update`; the `Bool` is `result != NoChange`. -/
+def St.xfM (st : St) (m k : Nat) (f : Xf) : St × Bool :=
+  match f.app (alGet (st.readM m) k) with
+  | some v2 => (st.updM m k v2, true)
+  | none =>
+    match alGet (st.readM m) k with
+    | some _ => (st.remM m k, true)
+    | none => (st, false)
+
+/-- Insertion sort of the keys (`keys_with_recon.sort_by` of `drop_or_take`: `Value` ordering, numeric on integers). -/
+def insNat (x : Nat) : List Nat → List Nat
+  | [] => [x]
+  | y :: ys => if x ≤ y then x :: y :: ys else y :: insNat x ys
+
+def sortNat (l : List Nat) : List Nat := l.foldr insNat []
+
+/-- `map_storage::drop_or_take`: the keys a `Drop(n)` (the first `n` in key order) / `Take(n)` (all but the first
+`n`) command removes, in the order in which they are removed. -/
+def dropTakeKeys (content : List (Nat × Int)) (drop : Bool) (n : Nat) : List Nat :=
+  if drop then (sortNat (content.map (·.1))).take n else (sortNat (content.map (·.1))).drop n
+
 def St.spawn (st : St) (h : H) : St := { st with susp := st.susp ++ [h] }
 
 def St.addDirty (st : St) (id : Nat) : St := { st with dirty := setInsert st.dirty id }
@@ -224,6 +274,12 @@ def step (st : St) : H → H × St × Out
   | .mrem m k => (.done, st.remM m k, .complete (some (Mod.mapRemove (mid m))))
   | .mclr m => (.done, st.clrM m, .complete (some (Mod.mapClear (mid m))))
   | .mgetLog m k => (.snd (.emit (.gotE m k (alGet (st.readM m) k))), st, .cont none)
+  | .mxf m k f =>
+    (.done, (st.xfM m k f).1, .complete (if (st.xfM m k f).2 then some (Mod.mapTransform (mid m)) else none))
+  | .mwithLog m k => (.snd (.emit (.gotW m k (alGet (st.readM m) k))), st, .cont none)
+  -- `MapLaneRemoveMultiple::step`: `pop_front`, one `MapLaneRemove::step` (always completes), `Continue`
+  | .remMulti m (k :: rest) => (.remMulti m rest, st.remM m k, .cont (some (Mod.mapRemove (mid m))))
+  | .remMulti _ [] => (.done, st, .complete none)
   | .fby a b => wrapStep (fun x => .fby x b) (some (.snd b)) (step st a)
   | .athen a b => wrapStep (fun x => .athen x b) (some (.snd b)) (step st a)
   | .snd b => wrapStep .snd none (step st b)
@@ -249,6 +305,9 @@ def size : H → Nat
   | .mrem _ _ => 1
   | .mclr _ => 1
   | .mgetLog _ _ => 3
+  | .mxf _ _ _ => 1
+  | .mwithLog _ _ => 3
+  | .remMulti _ keys => keys.length + 1
   | .fby a b => size a + size b + 2
   | .athen a b => size a + size b + 2
   | .snd b => size b + 1
@@ -351,6 +410,12 @@ def seqThen (r : St × Outcome) (k : St → St × Outcome) : St × Outcome :=
   | (st, .ok) => k st
   | (st, .err e) => (st, .err e)
 
+/-- Reference meaning of a take/drop: the removals one after the other in the order of `keys`, each followed by the
+lane's handlers run to completion (so each sees the map without the keys removed before it). -/
+def evalRem (trig : Trig) (m : Nat) : List Nat → St → St × Outcome
+  | [], st => (st, .ok)
+  | k :: rest, st => seqThen (trig (mid m) ((st.remM m k).addDirty (mid m))) (evalRem trig m rest)
+
 def eval (trig : Trig) : H → St → St × Outcome
   | .emit e, st => (st.log e, .ok)
   | .getLog l, st => ((st.log (.got l (st.readV l))), .ok)
@@ -360,6 +425,10 @@ def eval (trig : Trig) : H → St → St × Outcome
   | .mrem m k, st => trig (mid m) ((st.remM m k).addDirty (mid m))
   | .mclr m, st => trig (mid m) ((st.clrM m).addDirty (mid m))
   | .mgetLog m k, st => (st.log (.gotE m k (alGet (st.readM m) k)), .ok)
+  | .mxf m k f, st =>
+    if (st.xfM m k f).2 then trig (mid m) ((st.xfM m k f).1.addDirty (mid m)) else ((st.xfM m k f).1, .ok)
+  | .mwithLog m k, st => (st.log (.gotW m k (alGet (st.readM m) k)), .ok)
+  | .remMulti m keys, st => evalRem trig m keys st
   | .fby a b, st => seqThen (eval trig a st) (eval trig b)
   | .athen a b, st => seqThen (eval trig a st) (eval trig b)
   | .snd b, st => eval trig b st
@@ -405,6 +474,10 @@ structure Agent where
   st : St
   phase : Phase
   deriving Repr
+
+/-- `MapLaneDropOrTake` in its `Init` state, about to be run in state `st`: its first `step` computes the keys to
+remove from the current map (`drop_or_take`) and performs the first step of the `MapLaneRemoveMultiple` it becomes. -/
+def dropTakeH (st : St) (m : Nat) (drop : Bool) (n : Nat) : H := .remMulti m (dropTakeKeys (st.readM m) drop n)
 
 def topRun (P : Prog) (h : H) (st : St) : St × Outcome := run (trigD P maxDepth) h st
 
